@@ -9,7 +9,8 @@ class NodeBase(HasTraits):
     kids = List(Instance("NodeBase"), ltracked=True)
     # (Dict traits are copied by reference unless told otherwise; List / Set / Instance default to copy="deep")
     d = Dict(CStr, Instance("NodeBase"), copy="deep")
-    s = Set(Instance("NodeBase"))
+    # compared by IDENTITY: assigning another set object - equal or not - is a change
+    s = Set(Instance("NodeBase"), comparison_mode=ComparisonMode.identity)
     dl = Dict(CStr, List(Instance("NodeBase")), copy="deep")      # a nested container
     # a list or an int: observed with list_items() of the expression API, which REQUIRES a list
     box = Union(List(Instance("NodeBase")), Int)
